@@ -280,6 +280,185 @@ def rand_op(u, rnd):
     return [rnd.choice(['listLshift', 'listRshift']), None, [rt()] if single else rl(2), src, single]
 
 
+def related(u, x, rnd):
+    """a task related to `x` (uid of a task or hidden root): an ancestor, a descendant, a task with the same id as one of
+    those (an 'id twin'), or a task linked to one of them - the arguments on which the validations of the setters differ
+    from a shallow version of themselves"""
+    o = u.obj(x)
+    anc, q = [], getattr(o, '_Task__parent', None)
+    while q is not None and len(anc) < 50:
+        anc.append(q)
+        q = getattr(q, '_Task__parent', None)
+    desc, st = [], list(o.children)
+    while st and len(desc) < 50:
+        y = st.pop()
+        desc.append(y)
+        st += list(y.children)
+    near = [o] + anc + desc
+    ids = {t.id for t in near}
+    twins = [t for t in u.tasks if t.id in ids and all(t is not n for n in near)]
+    linked = [l for n in near for l in list(n.predecessors) + list(n.successors)]
+    pools = [p for p in (anc[1:], anc, desc, twins, linked) if p]
+    if not pools:
+        return None
+    r = u.u(rnd.choice(rnd.choice(pools)))
+    return r if r is not None and 0 <= r < u.m else None
+
+
+def _rawp(o):
+    return getattr(o, '_Task__parent', None)
+
+
+def _anc(o):
+    r, q = [], _rawp(o)
+    while q is not None and len(r) < 50:
+        r.append(q)
+        q = _rawp(q)
+    return r
+
+
+def _sub(o):
+    r, st = [], [o]
+    while st and len(r) < 80:
+        y = st.pop()
+        r.append(y)
+        st += list(y.children)
+    return r
+
+
+def directed_ops(u, rnd):
+    """near-miss calls instantiated on the current state: every pattern lists the calls on which a validation of a setter
+    differs from a shallower, id-based or later-placed version of itself (each came from a defect or a seeded change)"""
+    T = u.tasks
+    m = u.m
+    U = u.u
+    pats = {}
+
+    def add(name, op):
+        pats.setdefault(name, []).append(op)
+
+    def hier_calls(h, x, name):
+        """ways of making x a child of h that keep some of h's children around it"""
+        ks = [U(c) for c in u.obj(h).children]
+        rnd.shuffle(ks)
+        keep = ks[:rnd.randrange(0, len(ks) + 1)]
+        cut = rnd.randrange(0, len(keep) + 1)
+        add(name, ['setChildren', h, keep[:cut] + [x] + keep[cut:]])
+        add(name, ['chInsert', h, rnd.randrange(0, len(ks) + 1), x, 'fresh'])
+        add(name, ['chAppend', h, x, 'fresh'])
+        add(name, ['floordiv', h, [x], True])
+        if h < m:
+            add(name, ['setParent', x, h])
+
+    for t in T:
+        ut = U(t)
+        anc = [a for a in _anc(t)]
+        vis = [a for a in anc if U(a) < m]
+        sub = _sub(t)
+        root = anc[-1] if anc else t
+        tree = _sub(root)
+        # an ancestor at distance >= 2 (or 1) as a child
+        for a in vis[1:]:
+            hier_calls(ut, U(a), 'deep-ancestor-child')
+        for a in vis[:1]:
+            hier_calls(ut, U(a), 'parent-child')
+        # re-parenting under a different object with the id of the current parent
+        p = _rawp(t)
+        if p is not None:
+            for x in T:
+                if x.id == p.id and x is not p:
+                    add('twin-of-parent', ['setParent', ut, U(x)])
+                    add('twin-of-parent', ['chAppend', U(x), ut, 'fresh'])
+                    xtree = _sub((_anc(x) or [x])[-1])
+                    if {y.id for y in sub} & {y.id for y in xtree if all(y is not z for z in sub)}:
+                        add('twin-of-parent-id-clash', ['setParent', ut, U(x)])
+        # a receiving tree that holds one of the subtree's ids in another branch
+        ids = {x.id for x in sub}
+        for x in T:
+            if all(x is not y for y in tree) and x.id in ids:
+                for h in [x] + _anc(x)[:2] + list(x.children)[:1] + [c for c in list(_rawp(x).children if _rawp(x) is not None else [])][:2]:
+                    if U(h) is not None and U(h) >= 0 and all(h is not y for y in sub):
+                        hier_calls(U(h), ut, 'id-clash-other-branch')
+        # a child whose subtree is linked to the receiver or one of its ancestors
+        for x in sub + anc:
+            for l in list(x.predecessors) + list(x.successors):
+                for y in [l] + [a for a in _anc(l) if U(a) < m]:
+                    if all(y is not z for z in sub):
+                        hier_calls(ut, U(y), 'linked-child')
+        # links to ancestors / descendants at distance >= 2, and links closing a cycle through hierarchy or several edges
+        for a in vis[1:] + [d for d in sub if _rawp(d) is not t and d is not t]:
+            for k in ('prAppend', 'suAppend'):
+                add('link-far-relative', [k, ut, U(a)])
+            add('link-far-relative', ['setPreds', ut, [U(x) for x in t.predecessors] + [U(a)]])
+            add('link-far-relative', ['setSuccs', ut, [U(x) for x in t.successors] + [U(a)]])
+        seen, fr = [], list(t.successors)
+        while fr and len(seen) < 40:
+            y = fr.pop()
+            if any(y is z for z in seen):
+                continue
+            seen.append(y)
+            fr += list(y.successors) + list(y.children) + [a for a in _anc(y) if U(a) < m][:1]
+        for y in seen:
+            if all(y is not z for z in list(t.successors)) and y is not t:
+                add('cycle-closing-link', ['suAppend', U(y), ut])
+                add('cycle-closing-link', ['prAppend', ut, U(y)])
+                add('cycle-closing-link', ['setPreds', ut, [U(x) for x in t.predecessors] + [U(y)]])
+                add('cycle-closing-link', ['rshift', U(y), [ut], True])
+        # a task of another WBS
+        if t.wbs is not None:
+            for x in T:
+                if x.wbs is not None and x.wbs is not t.wbs:
+                    hier_calls(ut, U(x), 'cross-wbs')
+                    add('cross-wbs', ['chAppend', m + u.wbs.index(t.wbs), U(x), 'fresh'])
+    if not pats:
+        return None
+    name = rnd.choice(sorted(pats))
+    return rnd.choice(pats[name])
+
+
+RECEIVER_AT_1 = ('setParent', 'setChildren', 'floordiv', 'lshift', 'rshift', 'setPreds', 'setSuccs', 'chAppend', 'prAppend',
+                 'suAppend', 'chInsert')
+
+
+def steer(u, op, rnd, p=0.35):
+    """with some probability replace an argument by a task related to the receiver (see `related`)"""
+    if rnd.random() >= p:
+        return op
+    k = op[0]
+    op = list(op)
+    if p > 0.5 and rnd.random() < 0.6 and k in RECEIVER_AT_1 and op[1] < u.m:
+        # focused mode: prefer receivers that sit deep in a tree
+        deep = [t for t in range(u.m) if getattr(u.objs[t], '_Task__parent', None) is not None
+                and getattr(getattr(u.objs[t], '_Task__parent'), '_Task__parent', None) is not None]
+        if deep:
+            op[1] = rnd.choice(deep)
+    if k == 'setParent':
+        t = op[1]
+        cur = getattr(u.obj(t), '_Task__parent', None)
+        cands = [u.u(x) for x in u.tasks if cur is not None and x.id == cur.id and x is not cur]
+        r = rnd.choice(cands) if cands and rnd.random() < 0.5 else related(u, t, rnd)
+        if r is not None:
+            op[2] = r
+    elif k in ('setChildren', 'floordiv', 'lshift', 'rshift', 'setPreds', 'setSuccs'):
+        r = related(u, op[1], rnd)
+        if r is not None and isinstance(op[2], list):
+            l = list(op[2])
+            if k in ('floordiv', 'lshift', 'rshift') and op[-1] is True:
+                l = [r]
+            else:
+                l.insert(rnd.randrange(0, len(l) + 1), r)
+            op[2] = l
+    elif k in ('chAppend', 'prAppend', 'suAppend'):
+        r = related(u, op[1], rnd)
+        if r is not None:
+            op[2] = r
+    elif k == 'chInsert':
+        r = related(u, op[1], rnd)
+        if r is not None:
+            op[3] = r
+    return op
+
+
 def new_universe(case):
     return Universe(case['ids'], case['prio'], case['nw'])
 
@@ -291,8 +470,36 @@ def random_case(prop, rng, tier):
     prio = [rng.randrange(3) for _ in range(m)]
     case = {'ids': ids, 'prio': prio, 'nw': rng.randrange(1, 4), 'ops': []}
     u = new_universe(case)
-    for _ in range(rng.randrange(10, 31 if tier == 'quick' else 41)):
-        op = u.concretise(rand_op(u, rng))
+    # constructive prefix (two cases in three): grow a forest of some depth and a few links with mostly legal calls, so that
+    # the random calls that follow meet ancestors, descendants and linked subtrees at distance > 1
+    prefix = []
+    if rng.random() < 0.75:
+        order = list(range(m))
+        rng.shuffle(order)
+        placed = []
+        for t in order:
+            r = rng.random()
+            if placed and r < 0.6:
+                prefix.append(['setParent', t, rng.choice(placed[-3:] if rng.random() < 0.5 else placed)])
+            elif r < 0.85:
+                prefix.append(['chAppend', m + rng.randrange(case['nw']), t, 'fresh'])
+            placed.append(t)
+        for _ in range(rng.randrange(0, 4)):
+            prefix.append([rng.choice(['prAppend', 'suAppend']), rng.randrange(m), rng.randrange(m)])
+    for op in prefix:
+        op = u.concretise(op)
+        case['ops'].append(op)
+        try:
+            u.apply(op)
+        except common.MachineryError:
+            raise
+        except Exception:  # noqa
+            pass
+    focused = bool(prefix) and rng.random() < 0.7
+    tail = rng.randrange(3, 10) if focused else rng.randrange(10, 31 if tier == 'quick' else 41)
+    for _ in range(tail):
+        d = directed_ops(u, rng) if focused and rng.random() < 0.8 else None
+        op = u.concretise(d if d is not None else steer(u, rand_op(u, rng), rng, 0.75 if focused else 0.35))
         case['ops'].append(op)
         try:
             u.apply(op)
@@ -429,7 +636,7 @@ def mutate(prop, case, rng):
         except Exception:  # noqa
             pass
     for _ in range(rng.randrange(1, 8)):
-        op = u.concretise(rand_op(u, rng))
+        op = u.concretise(steer(u, rand_op(u, rng), rng))
         ops.append(op)
         try:
             u.apply(op)
@@ -439,7 +646,7 @@ def mutate(prop, case, rng):
 
 
 def count(prop, tier):
-    return 600 if tier == 'quick' else 20000
+    return 1500 if tier == 'quick' else 20000
 
 
 def projection(prop):
@@ -451,7 +658,7 @@ def projection(prop):
 
 
 def rule(prop):
-    return ('random histories of 10-30 (thorough: 40) public mutator calls over 3-8 (12) task objects whose ids are drawn from a small '
+    return ('random histories (two in three start with a constructive prefix that grows a forest of some depth and a few links; arguments are steered towards ancestors, descendants, id twins and linked tasks of the receiver in a third of the calls) of 10-30 (thorough: 40) public mutator calls over 3-8 (12) task objects whose ids are drawn from a small '
             'pool (clashes are frequent) and 1-3 WBSs; legal and illegal arguments (self references, repeated elements, tasks of other '
             'trees/WBSs, missing anchors, bad indexes, unknown ids, façades kept across calls); each step is compared with the model run '
             'from the implementation\'s own pre-state; non-trivial = >=1 accepted and >=1 rejected call; distinct = distinct (ids, ops)')
